@@ -603,8 +603,15 @@ class SegmentationImage:
             numbers.
         """
         # child_labels are the deblended labels
-        for parent_label, child_labels in self._deblend_label_map.items():
-            self._deblend_label_map[parent_label] = relabel_map[child_labels]
+        for parent_label, child_labels in list(
+                self._deblend_label_map.items()):
+            child_labels = relabel_map[child_labels]
+            # removed labels map to zero (the background)
+            child_labels = child_labels[child_labels != 0]
+            if child_labels.size == 0:
+                del self._deblend_label_map[parent_label]
+            else:
+                self._deblend_label_map[parent_label] = child_labels
 
     def reassign_label(self, label, new_label, relabel=False):
         """
